@@ -428,7 +428,7 @@ def replay_known(ctx):
 
 
 def main(tier, seed):
-    ctx = Ctx(PROP, tier, seed, 'exploration')
+    ctx = Ctx(PROP, tier, seed, 'proof')
     ctx.trusted_base = [
         'Coq 8.16.1 kernel (coqc, full .vo build; vm_compute only in the Examples)',
         'no axioms: every theorem prints "Closed under the global context"',
